@@ -19,7 +19,7 @@ pub const SPEC: Spec = Spec {
     rule: "a 1->1 Elements-family program IR generated in satisfying mode (no fail nodes; assertions only in guarded form comp (pair (injl/injr e) r) (assertl/assertr ..); witness-selected case nodes; case nodes under sharing so that one node is reached with both choices; jets = Elements namesakes of the functionally modelled Core jets), witnesses generated for the inferred types, executed in a minimal Elements environment; runs that fail are discarded and counted. Oracle: prune is Ok; same cmr; the pruned program runs Ok; its serialisation is accepted by libsimplicity (decode, type inference, witness, IHR uniqueness) and evalTCOExpression(CHECK_ALL) returns NoError; it decodes in Rust to the same program; pruning again gives the same ihr and bytes. Non-trivial: pruning turned >= 1 case into an assertion or shrank >= 1 witness value. Distinct by (program bytes, witness bytes) before pruning.",
     design_ref: "§6 C08",
     max_len: 1500,
-    quick_cases: 12_000,
+    quick_cases: 40_000,
     thorough_cases: 300_000,
     ..Spec::base("C08", "Pruning preserves commitment and behaviour and satisfies anti-DoS", case)
 };
